@@ -44,6 +44,7 @@ func (c12) Plan(tier string, seed int64) []mon.Workload {
 		{Name: "sql", N: 300 * m},
 		{Name: "typed-captures", N: int64(len(c12CapBases) * len(c12CapTypes) * len(c12CapTypes)), Exhaustive: true},
 		{Name: "shadowing", N: int64(len(c12ShadowBlocks) * len(c12ShadowPairs) * 3), Exhaustive: true},
+		{Name: "redeclare", N: int64(len(c12RedeclForms) * len(c12ShadowPairs) * 2), Exhaustive: true},
 	}
 }
 
@@ -112,6 +113,40 @@ var c12ShadowBlocks = [][2]string{{"if true {\n", "}\n"}, {"if false {\n} else {
 	{"if true {\n  if true {\n", "  }\n}\n"}, {"if false {\n} elif true {\n", "}\n"}}
 var c12ShadowPairs = [][2]string{{"[a-z]+", "\\\\d+"}, {"\\\\d+", "[a-z]+"}, {"[a-z]+", "\\\\S+ \\\\S+"}, {"\\\\S+ \\\\S+", "\\\\d+"}, {"[a-c]+", "[a-z]+ "}, {"\\\\d", "\\\\d+"}}
 
+// redeclare (exhaustive): a composite alias (its text refers to another
+// alias) declared again with byte-identical text after the alias it refers
+// to was redefined: the second declaration expands with the sub-pattern
+// visible THEN. Same scope, and a built-in composite over a redefined
+// built-in.
+var c12RedeclForms = []string{
+	"add_pattern(\"sub\", \"@A@\")\nadd_pattern(\"comp\", \"%{sub}.\")\nok1 = grok(_, \"%{comp:w1}\")\nadd_pattern(\"sub\", \"@B@\")\nadd_pattern(\"comp\", \"%{sub}.\")\nok2 = grok(_, \"%{comp:w2@T@}\")\np(ok1, w1, ok2, w2)\n",
+	"add_pattern(\"sub\", \"@A@\")\nadd_pattern(\"comp\", \"%{sub}.\")\nadd_pattern(\"sub\", \"@B@\")\nadd_pattern(\"comp\", \"%{sub}.\")\nadd_pattern(\"top\", \"%{comp} ?\")\nok2 = grok(_, \"%{top:w2@T@}\")\np(ok2, w2)\n",
+	"add_pattern(\"USERNAME\", \"@A@\")\nadd_pattern(\"USER\", \"%{USERNAME}\")\nok1 = grok(_, \"%{USER:w1}\")\nadd_pattern(\"USERNAME\", \"@B@\")\nadd_pattern(\"USER\", \"%{USERNAME}\")\nok2 = grok(_, \"%{USER:w2@T@}\")\np(ok1, w1, ok2, w2)\n",
+	"add_pattern(\"sub\", \"@A@\")\nadd_pattern(\"comp\", \"%{sub}.\")\nadd_pattern(\"comp\", \"%{sub}.\")\nadd_pattern(\"sub\", \"@B@\")\nok2 = grok(_, \"%{comp:w2@T@}\")\nadd_pattern(\"comp\", \"%{sub}.\")\nok3 = grok(_, \"%{comp:w3}\")\np(ok2, w2, ok3, w3)\n",
+}
+
+func c12Redeclare(i int64) ([]*gt.T, *ref.Point) {
+	typed := i%2 == 1
+	i /= 2
+	pair := c12ShadowPairs[int(i)%len(c12ShadowPairs)]
+	form := c12RedeclForms[int(i)/len(c12ShadowPairs)]
+	ty := ""
+	if typed {
+		ty = ":int"
+	}
+	text := strings.ReplaceAll(strings.ReplaceAll(strings.ReplaceAll(form, "@A@", pair[0]), "@B@", pair[1]), "@T@", ty)
+	o := drive.Parse("redeclare", text)
+	if o.Err != nil {
+		panic("c12: redeclare program does not parse: " + text + ": " + o.Err.Error())
+	}
+	l, err := gt.FromStmts(o.Stmts)
+	if err != nil {
+		panic(err)
+	}
+	pt := ref.NewPoint("m", nil, map[string]any{"message": "abc 12 zz"}, time.Unix(1600000000, 0))
+	return gt.CloneStmts(l), pt
+}
+
 func c12Shadowing(i int64) ([]*gt.T, *ref.Point) {
 	place := int(i % 3)
 	i /= 3
@@ -140,6 +175,9 @@ func c12Shadowing(i int64) ([]*gt.T, *ref.Point) {
 func (c12) build(c *mon.Ctx, workload string, i int64) ([]*gt.T, *ref.Point) {
 	if workload == "shadowing" {
 		return c12Shadowing(i)
+	}
+	if workload == "redeclare" {
+		return c12Redeclare(i)
 	}
 	if workload == "typed-captures" {
 		return c12TypedCaptures(i)
